@@ -119,7 +119,21 @@ inductive Recover
   | procfsEnoent
   /-- AIX io_counters(): "if process is terminated, proc_io_counters returns OSError instead of NSP" -/
   | goneMeansNsp
+  /-- a yes/no question about ONE path that is not the process entry itself — is this fd link a link
+      (Solaris open_files()), is this candidate path an executable file (AIX exe(): "search for exe name
+      PATH") —: when the question cannot be answered the answer is "no", that one item is left out and
+      the method returns -/
+  | pathQuestion
+  /-- Solaris, PID 0 (`sched`): inside a zone /proc/0/psinfo is not there although the process is; the
+      module reports AccessDenied whenever it cannot see that file (the statement's PID-0 exception:
+      "an otherwise unexplained OS error on the existing PID 0 is reported as AccessDenied") -/
+  | pid0Psinfo
   deriving DecidableEq, Repr
+
+/-- Solaris methods documented to come from the psinfo record (`_proc_basic_info`; uids()/gids() fall back to it) -/
+def sunosPsinfoMethods : List String :=
+  ["ppid", "nice_get", "create_time", "num_threads", "status", "terminal", "memory_info", "memory_full_info",
+   "uids", "gids"]
 
 def recoverable (p : Platform) (meth call : String) : Recover :=
   match p with
@@ -136,9 +150,12 @@ def recoverable (p : Platform) (meth call : String) : Recover :=
     else if (meth == "terminal" || meth == "cwd" || meth == "open_files" || meth == "memory_maps")
             && call == "os.readlink" then .subResourceVanished
     else if meth == "threads" && call == "query_process_thread" then .subResourceVanished
+    else if meth == "open_files" && call == "os.path.islink" then .pathQuestion
+    else if call == "os.path.exists" && sunosPsinfoMethods.contains meth then .pid0Psinfo
     else .none
   | .aix =>
     if meth == "cwd" && call == "os.readlink" then .subResourceVanished
+    else if meth == "exe" && call == "os.path.isfile" then .pathQuestion
     else if meth == "io_counters" && call == "proc_io_counters" then .goneMeansNsp
     else .none
   | .netbsd =>
@@ -171,7 +188,9 @@ def allowed (p : Platform) (meth : String) (r : Recover) (e : Err) (env : Env) (
        (o == (if listedAsZombie f env then .zombie env.pid true
               else if env.pid != 0 && env.state == .gone then .nsp env.pid true else .value))
    | .procfsEnoent => e.errno == .ENOENT && o == contract f ⟨.ESRCH, none⟩ env
-   | .goneMeansNsp => env.state == .gone && o == .nsp env.pid true)
+   | .goneMeansNsp => env.state == .gone && o == .nsp env.pid true
+   | .pathQuestion => o == .value
+   | .pid0Psinfo => env.pid == 0 && o == .ad env.pid true)
 
 /-- Two-fault sequences. The first failing call was recovered from (one of the documented
     recoverable situations above, or the partial-copy retry), so the method is still running;
@@ -685,6 +704,12 @@ def initExpected (p : Platform) (e : Err) (env : Env) (ignoreNsp : Bool) : InitR
   | .nsp _ _ => if ignoreNsp then .built none none true else .raisesNsp
   | .raw e' => .raisesOther e'
   | _ => .unmodelled
+
+/-- what the constructor may ALSO be left with because the failing call of the creation-time query sits at a
+    documented recoverable place (`recoverable`): only the Solaris PID-0 psinfo gate — AccessDenied there, so
+    the object is built with `(0, None)` -/
+def initAlso (p : Platform) (call : String) (env : Env) : List InitRes :=
+  if recoverable p "create_time" call == .pid0Psinfo && env.pid == 0 then [.built none none false] else []
 
 /-- "Zombie processes on Open/NetBSD have a creation time of 0.0. This covers the case when a
     process started normally (so it has a ctime), then it turned into a zombie": there, two
